@@ -14,7 +14,7 @@ func init() {
 	fw.Register(&fw.Check{
 		ID:    "C05",
 		Level: "fault_enumeration",
-		Rule: "base modules = every atom and generated module that both LLVM and the parser accept. Single-point naming faults are enumerated from the token stream of each base: every use of a global, local, type, comdat, metadata ID or attribute-group identifier (operands, callees, branch targets, phi predecessors, type uses, comdat uses, metadata uses in attachments/tuples/DI fields/named metadata, blockaddress operands, uselistorder targets) is redirected, one at a time, to a fresh undefined identifier of the same sigil, and every definition (global, function, type, comdat, metadata ID, local value, label) is duplicated, one at a time. About 100 hand-written faults add the shapes the enumeration cannot reach (a block address taken in a declaration, label/value name clashes, undefined names inside switch/indirectbr/invoke/callbr/bundles/casts/allocas/funclet terminators/use-list orders, duplicate comdats and metadata IDs, quoted-digit names next to IDs, references spelled with the empty quoted name, explicit %0 given twice, ...); every definition line is also removed, one at a time, after the intact base was parsed in the same process. A fault counts when LLVM rejects the faulted text; then asm.ParseString must return an error and no module, without panicking. " +
+		Rule: "base modules = every atom and generated module that both LLVM and the parser accept. Single-point naming faults are enumerated from the token stream of each base: every use of a global, local, type, comdat, metadata ID or attribute-group identifier (operands, callees, branch targets, phi predecessors, type uses, comdat uses, metadata uses in attachments/tuples/DI fields/named metadata, blockaddress operands, uselistorder targets) is redirected, one at a time, to a fresh undefined identifier of the same sigil and to a look-alike of its own name (name.1, name0, name less a character, name., another case; judged when LLVM's diagnostic is about naming), and every definition (global, function, type, comdat, metadata ID, local value, label) is duplicated, one at a time. About 100 hand-written faults add the shapes the enumeration cannot reach (a block address taken in a declaration, label/value name clashes, undefined names inside switch/indirectbr/invoke/callbr/bundles/casts/allocas/funclet terminators/use-list orders, duplicate comdats and metadata IDs, quoted-digit names next to IDs, references spelled with the empty quoted name, explicit %0 given twice, ...); every definition line is also removed, one at a time, after the intact base was parsed in the same process. A fault counts when LLVM rejects the faulted text; then asm.ParseString must return an error and no module, without panicking. " +
 			"Further faults: the verdict 'neither error nor module' is a violation of its own; references spelled with the empty quoted name in every position; explicit %0 given twice or out of position; undefined types inside attributes; explicit and misnumbered results of invoke, callbr and catchswitch. " +
 			"non-trivial = a faulted input LLVM rejects; distinct by (base, site)",
 		Gen:           genC05,
@@ -250,6 +250,11 @@ func c05Faults(text string) []c05Fault {
 			repl = "#987654"
 		}
 		out = append(out, c05Fault{kind: "undefined/" + t.context, text: text[:t.start] + repl + text[t.end:], site: fmt.Sprintf("%s@%d", t.text, t.start)})
+		// the same site redirected to an undefined name that looks like the defined one
+		// (a suffix as LLVM adds when it renames, a digit more, a character less, another case)
+		if alike := c05LookAlike(t.text, len(out)); alike != "" {
+			out = append(out, c05Fault{kind: "undefined-lookalike/" + t.context, text: text[:t.start] + alike + text[t.end:], site: fmt.Sprintf("%s->%s@%d", t.text, alike, t.start), naming: true})
+		}
 	}
 	// duplicate definitions: repeat the defining line (top-level single-line definitions and instruction lines)
 	lines := strings.SplitAfter(text, "\n")
@@ -505,4 +510,67 @@ func c05Handwritten(r *fw.Rec) {
 	for _, kind := range fw.SortedKeys(cases) {
 		c05Judge(r, "handwritten", c05Fault{kind: kind, text: cases[kind], site: "handwritten"})
 	}
+}
+
+// c05LookAlike derives from a named identifier token (`@name`, `%"name"`, `$name`)
+// the spelling of another name that resembles it; "" for numeric IDs and
+// metadata / attribute-group references. Whether the result is undefined in the
+// module at hand is decided by LLVM (the gate), not here.
+func c05LookAlike(tok string, variant int) string {
+	if len(tok) < 2 || !(tok[0] == '@' || tok[0] == '%' || tok[0] == '$') {
+		return ""
+	}
+	name, quoted := tok[1:], false
+	if len(name) >= 2 && name[0] == '"' && name[len(name)-1] == '"' {
+		name, quoted = name[1:len(name)-1], true
+	}
+	if name == "" {
+		return ""
+	}
+	allDigits := true
+	for i := 0; i < len(name); i++ {
+		if name[i] < '0' || name[i] > '9' {
+			allDigits = false
+		}
+	}
+	if allDigits && !quoted {
+		return ""
+	}
+	var alike string
+	switch variant % 5 {
+	case 0:
+		alike = name + ".1"
+	case 1:
+		alike = name + "0"
+	case 2:
+		if len(name) > 1 && name[len(name)-1] != '\\' && !(len(name) > 2 && name[len(name)-3] == '\\') {
+			alike = name[:len(name)-1]
+		} else {
+			alike = name + ".2"
+		}
+	case 3:
+		alike = name + "."
+	default:
+		b := []byte(name)
+		changed := false
+		for i := range b {
+			if b[i] >= 'a' && b[i] <= 'z' {
+				b[i] -= 32
+				changed = true
+				break
+			} else if b[i] >= 'A' && b[i] <= 'Z' {
+				b[i] += 32
+				changed = true
+				break
+			}
+		}
+		alike = string(b)
+		if !changed {
+			alike = name + "_"
+		}
+	}
+	if quoted {
+		return tok[:1] + `"` + alike + `"`
+	}
+	return tok[:1] + alike
 }
